@@ -219,6 +219,50 @@ def check(cm: ClassModel, depth: int = 2) -> tuple[int, dict[str, str]]:
                     ok3, again = guard("Stream.backup", lambda: cm.call(st, "peek"))
                     if ok3 and again is not roots[-1].obj:
                         fail("Stream.backup", f"{desc}: backup() at the end does not return to the last pair")
+                # --- histories: a stream is a cursor of its own.  What one walk consumed is not missing from the next
+                # stream over the same pairs (pairs.stream() / pair.stream() / pair.inner().stream() called again, after
+                # the first was used up), and the public cursor `pos` repositions a stream (rewind, mark and return)
+                def drain(s_: Obj, limit: int) -> list:
+                    out_ = []
+                    for _ in range(limit + 1):
+                        x_ = cm.call(s_, "next")
+                        out_.append(x_)
+                        if x_ is None:
+                            break
+                    return out_
+
+                want_objs = [t.obj for t in roots] + [None]
+                ok, second = guard("Stream", lambda: drain(cm.call(pairs, "stream"), len(roots)))
+                if ok and (len(second) != len(want_objs) or any(a is not b for a, b in zip(second, want_objs))):
+                    fail("Stream", f"{desc}: a second stream() over the same pairs, taken after the first was consumed, does not start at the first pair again")
+                for t in allnodes:
+                    if not t.children:
+                        continue
+                    o = t.obj
+                    wk = [c.obj for c in t.children] + [None]
+                    for how, mk in (("pair.stream()", lambda o=o: cm.call(o, "stream")), ("pair.inner().stream()", lambda o=o: cm.call(cm.call(o, "inner"), "stream"))):
+                        for round_ in (1, 2, 3):
+                            ok, got_ = guard("Stream", lambda mk=mk, t=t: drain(mk(), len(t.children)))
+                            if ok and (len(got_) != len(wk) or any(a is not b for a, b in zip(got_, wk))):
+                                fail("Stream", f"{desc}: node {t.name}: {how}, walk {round_}: the stream does not step through the children from the first one (an earlier walk of the same node is remembered)")
+                                break
+                if roots:
+                    def reposition() -> list:
+                        s_ = cm.call(pairs, "stream")
+                        drain(s_, len(roots))
+                        res = []
+                        for k in range(len(roots) + 1):
+                            s_.__dict__["pos"] = k
+                            res.append((cm.call(s_, "peek"), cm.call(s_, "next")))
+                        s_.__dict__["pos"] = 0
+                        res.append((cm.call(s_, "peek"), None))
+                        return res
+
+                    ok, rp = guard("Stream", reposition)
+                    if ok:
+                        wantrp = [(x, x) for x in want_objs] + [(want_objs[0], None)]
+                        if any(a[0] is not b[0] or (a[1] is not b[1]) for a, b in zip(rp, wantrp)):
+                            fail("Stream", f"{desc}: after `stream.pos = k` peek() / next() do not continue at pair k")
     return n, bad
 
 
